@@ -108,6 +108,14 @@ func (p *c06) Init(tier string) {
 		}
 	}
 	rec(nil)
+	// one larger table (every archetype several times, in a fixed irregular order)
+	{
+		rows := []any{}
+		for i := 0; i < 41; i++ {
+			rows = append(rows, gq.Clone(arch[(i*5+i/4)%len(arch)]))
+		}
+		p.tables = append(p.tables, rows)
+	}
 	p.u = []any{map[string]any{"a": "1", "b": "q"}, map[string]any{"a": 2.0, "b": "r"}, map[string]any{"a": "1", "b": "q"}}
 }
 
@@ -287,7 +295,7 @@ func window(rows []string, limit, offset int) []string {
 
 func (p *c06) Meta() core.Meta {
 	return core.Meta{
-		Rule: "DISTINCT cases: 7 select lists (1-3 columns incl. an object-valued one, *), each also with LIMIT 0..3 / OFFSET absent,0..2 (no ORDER BY: the window applies to the de-duplicated sequence); UNION cases: every chain of 2-3 (thorough 4) branches over 3 branch queries with every mix of UNION / UNION ALL, without and with LIMIT; each on every table of <= 3 (thorough 5) rows over 6 archetypes chosen to collide under %v ({a:1}/{a:\"1\"}, {a:\"x b:y\",b:\"q\"}/{a:\"x\",b:\"y b:q\"}); every successfully executed Query object is executed two more times and must return the same rows; non-trivial = a duplicate was actually removed and more than one row remains",
+		Rule: "DISTINCT cases: 7 select lists (1-3 columns incl. an object-valued one, *), each also with LIMIT 0..3 / OFFSET absent,0..2 (no ORDER BY: the window applies to the de-duplicated sequence); UNION cases: every chain of 2-3 (thorough 4) branches over 3 branch queries with every mix of UNION / UNION ALL, without and with LIMIT; each on every table of <= 3 (thorough 5) rows over 6 archetypes and one table of 41 rows chosen to collide under %v ({a:1}/{a:\"1\"}, {a:\"x b:y\",b:\"q\"}/{a:\"x\",b:\"y b:q\"}); every successfully executed Query object is executed two more times and must return the same rows; non-trivial = a duplicate was actually removed and more than one row remains",
 		Assumptions: []string{
 			"two rows are duplicates iff they have the same keys and type-identical values (the number 1 and the string \"1\" are different values)",
 			"chains associate to the left: (A op1 B) op2 C",
